@@ -77,6 +77,9 @@ var sessDocs = map[string]string{
 	"head":  "# a\n- b\n  - c\n- b2\n# d\n- e\n",
 	"slash": "- a\n\t- x/y\n\t- z\n",
 	"files": "- a\n  - f.x\n  - g.y\n  - h\n  - k\n    - m.x\n",
+	"long":  "- a\n  - b\n  - " + strings.Repeat("n", 300) + "\n    - c\n- d\n", // a name the file system refuses
+	"fmt1":  "- a\n  - b\nno bullet here\n",                                     // incorrect input format: no bullet here
+	"fmt2":  "- a\n  - b\n        - a jump\n",                                   // incorrect input format:         - a jump (one block: the same row whatever the schedule)
 }
 
 // the first root of each document, for the From-Root family
@@ -164,6 +167,11 @@ func sessObsOf(c sessCall, rp wproto.Rep) sessObs {
 		if c.Fault != "none" {
 			o.Out, o.Err, o.Walk = "", "", nil
 		}
+		if rp.Class != "ok" {
+			// a failing massive-mode call: how far the other roots got (written, visited, created) when the error
+			// ended the call is the schedule's business
+			o.Out, o.Walk, o.Entries = "", nil, nil
+		}
 	}
 	if rp.Class == "panic" || rp.Class == "hang" {
 		o.Err = firstLine(o.Err)
@@ -242,9 +250,20 @@ func (s *sessionRunner) runSession(calls []sessCall) {
 	}
 	defer p.Close()
 	var rp wproto.Rep
-	for _, c := range calls {
+	var raw []string // the error text of every call as it was when the call returned ("" = nil)
+	for i, c := range calls {
 		rp = p.Call(s.reqOf(c), 60*time.Second)
 		s.r.Count("real_calls", 1)
+		// the errors of the earlier calls are values the caller still holds: they say what they said
+		for j := 0; j < len(rp.Held) && j < len(raw); j++ {
+			if rp.Held[j] != raw[j] {
+				s.r.Mismatch("session"+s.build+":held-error-changed:"+calls[j].Op+"/"+calls[j].Fam,
+					fmt.Sprintf("session [%s ; ... ; %s]: the error returned by call %d said %q and says %q after call %d", calls[0], c, j+1, raw[j], rp.Held[j], i+1),
+					sessReplay{Build: s.build, Session: calls[:i+1]})
+				return
+			}
+		}
+		raw = append(raw, rp.RawErr)
 	}
 	s.r.Count("sessions_replayed", 1)
 	got := sessObsOf(last, rp)
